@@ -10,7 +10,10 @@ from .pinmods import P
 PROPERTY = 'C15'
 TECHNIQUE = 'the real card.py functions executed on strings of integer-valued digit characters (z3 linear integer arithmetic with div/mod by constants); one query per length and position over all digit values; second run with the module compiled with optimize=1 (python -O)'
 ASSUMPTIONS = [
-    'digit-string length is enumerated (1..16 quick, 1..19 thorough; longer numbers are outside the claim), every digit value symbolic 0..9',
+    'digit-string length is enumerated (1..24 quick, 1..40 thorough = the range the property names), every digit value symbolic 0..9',
+    'div/mod by 10 of a term over one digit variable is replaced by a canonical 10-entry lookup table; each replacement is a lemma '
+    '(for all d in 0..9: original == table) discharged by z3 once; the reference specification uses the same canonical form, so the residual '
+    'queries do not depend on the digits (this is what makes 20-40 digits tractable)',
     'separators are concrete non-digit characters at enumerated positions',
     'optimised mode = the same source compiled with optimize=1 by the loader (assert statements removed, as python -O does); witnesses are replayed in a python -O subprocess',
 ]
@@ -23,14 +26,19 @@ def _funcs():
 
 def spec_digit(ds):
     """Luhn from the definition: from the right, double every second digit starting with the rightmost payload digit; digits of the
-    doubled values are summed; check digit makes the total a multiple of 10"""
-    tot = z3.IntVal(0)
+    doubled values are summed; check digit makes the total a multiple of 10.
+    Per-digit contributions are written as canonical lookup tables (vsym.core.table), so that a correct implementation yields a
+    syntactically equal sum and the residual query does not depend on the digits."""
+    tot = 0
     dbl = True
     for d in reversed(ds):
-        t = core.lift(d)
-        tot = tot + (z3.If(t >= 5, 2 * t - 9, 2 * t) if dbl else t)
+        if dbl:
+            tot = tot + (core.table(d, lambda v: 2 * v - 9 if v >= 5 else 2 * v) if isinstance(d, SInt) else (2 * d - 9 if d >= 5 else 2 * d))
+        else:
+            tot = tot + d
         dbl = not dbl
-    return (10 - tot % 10) % 10
+    t = core.lift(tot)
+    return (10 - t % 10) % 10
 
 
 def accepts(card, s):
@@ -115,10 +123,10 @@ def luhn(L, opt, seps=None):
 def obligations(tier):
     q = tier == 'quick'
     obs = []
-    top = 16 if q else 19
+    top = 24 if q else 40
     for opt in (False, True):
         for L in range(1, top + 1):
-            if opt and q and L not in (1, 2, 3, 8, 15, 16):
+            if opt and q and L not in (1, 2, 3, 8, 15, 16, 19, 22):
                 continue
             obs.append(Ob('luhn/%s/len%02d' % ('O' if opt else 'normal', L), luhn(L, opt), 900 if L > 16 else 300,
                           'all digit strings of length %d: check digit, validity of the completed number, every single-digit substitution at '
@@ -126,8 +134,4 @@ def obligations(tier):
                           'digit strings longer than %d' % top))
     for L, sep in ((8, ('-', 4)), (12, (' ', 4)), (15, ('-', 5))):
         obs.append(Ob('luhn/separators/len%02d' % L, luhn(L, False, sep), 300, '%d digits with %r every %d digits' % (L, sep[0], sep[1]), _funcs))
-    if not q:
-        for L in (24, 30, 40):
-            obs.append(Ob('luhn/attempt/len%02d' % L, luhn(L, False), 1800, 'attempt beyond the claimed bound: length %d' % L, _funcs,
-                          'reported as inconclusive if the solver does not finish; not part of the claim'))
     return obs
